@@ -130,6 +130,12 @@ public:
                 finish = 0;
                 return *this;
             }
+        } else {
+            if (lower == std::numeric_limits<T>::max()) {  // nothing is greater
+                start = 1;
+                finish = 0;
+                return *this;
+            }
         }
         start = std::max(next_value(lower), start);
         return *this;
@@ -140,6 +146,12 @@ public:
     {
         if constexpr (std::numeric_limits<T>::has_infinity) {
             if (std::isinf(upper) && upper < std::numeric_limits<T>::lowest()) {
+                start = 1;
+                finish = 0;
+                return *this;
+            }
+        } else {
+            if (upper == std::numeric_limits<T>::lowest()) {  // nothing is lower
                 start = 1;
                 finish = 0;
                 return *this;
